@@ -3,11 +3,13 @@
    other map ranges iterate weight maps whose order is fixed in the model (assumed not to reach the
    result; sampled by repetition on every run).  Proved: the result does not depend on the order in which
    the model lists its type definitions; refuted (kernel-computed witness): on a cyclic model that is not
-   well-founded it does depend on the start order (known finding K-WG-cycles).  Independence of the start
-   order on well-founded models is not proved; it is checked on every run over explicit orders. *)
+   well-founded it does depend on the start order (known finding K-WG-cycles).  Proved (4-5): on every graph
+   without cycles the weights do not depend on the start order at all — both orders give the order-free
+   specification of Spec/GraphWeights.v (Proofs/DagWeights.v).  Independence of the start order on
+   well-founded models WITH tuple cycles is not proved; it is checked on every run over explicit orders. *)
 From Coq Require Import Permutation.
 From Verif Require Import Base.Str Base.Outcome Model.Ast Model.Printer Model.WGraph Model.WWeights
-  Proofs.WeightsProofs Proofs.Witnesses.
+  Spec.GraphWeights Proofs.WeightsProofs Proofs.Witnesses Proofs.GraphPrims Proofs.DagWeights Proofs.DagCheck.
 
 (* 1. permuting the type definitions of the model changes nothing: same unweighted graph, hence same outcome
       for every start order *)
@@ -30,3 +32,20 @@ Theorem C06_order_refuted :
 Proof.
   exists m_order, o_insertion, o_other. rewrite m_order_rejected, m_order_accepted. discriminate.
 Qed.
+
+(* 4. no cycle: every start order gives the same weights on every node both orders start from (all of them,
+      when the orders enumerate the nodes as AssignWeights does) *)
+Theorem C06_acyclic_order_independent : forall g0 rank o1 o2 g1 g2,
+  ranked_by g0 rank -> terminals_not_placeholders g0 -> unweighted g0 ->
+  assign_weights o1 g0 = Ok g1 -> assign_weights o2 g0 = Ok g2 ->
+  forall x, In x o1 -> In x o2 -> is_terminal (n_type (node_of g0 x)) = false ->
+    n_weights (node_of g1 x) = n_weights (node_of g2 x) /\ map ev (edges_from g1 x) = map ev (edges_from g2 x).
+Proof. exact dag_order_independent. Qed.
+
+(* 5. from the model, with the decidable hypothesis *)
+Theorem C06_acyclic_model_order_independent : forall m g o1 o2 g1 g2,
+  wbuild m = Ok g -> dag_check g = true ->
+  build_weighted o1 m = Ok g1 -> build_weighted o2 m = Ok g2 ->
+  forall x, In x (order_used o1 g) -> In x (order_used o2 g) -> is_terminal (n_type (node_of g x)) = false ->
+    n_weights (node_of g1 x) = n_weights (node_of g2 x).
+Proof. exact acyclic_model_order_independent. Qed.
